@@ -864,7 +864,7 @@ def _q9(ctx, R):
           "between family members (same-named parameters, lookup element type vs enclosing parent kind); Q2 the matcher's case / regex "
           "branches (fnmatch.fnmatch never with un-folded operands, re.fullmatch, IGNORECASE iff not is_case); Q3 filter(filter_func, raw) "
           "on top in every public query; Q4 the wildcard set of _is_pattern_absolute equals the matcher's special characters; Q5 every "
-          "yield of a raw generator is dominated by a de-duplication idiom, and the set / name map a later stage selects from is kept disjoint from what earlier stages returned; Q9 the lookup registry is not modified on a path that ends in a refusal; Q6 accepted option names equal the names read, documented "
+          "yield of a raw generator is dominated by a de-duplication idiom, and the set / name map a later stage selects from is kept disjoint from what earlier stages returned; Q9 the lookup registry is not modified on a path that ends in a refusal; Q7 the fallback scan used when no accelerated lookup is registered covers the five (parent, child) kinds, tests the key on the child and compares value with child[key], never stopping early; Q6 accepted option names equal the names read, documented "
           "defaults. Decides plumbing, option and de-duplication structure; does not decide that roots/selection/recursive produce the "
           "right unfiltered set.")
 def check_c13(ctx, R):
